@@ -20,6 +20,7 @@ RULE = ("random aggregates of 1-6 two-level molecules (mult 2 up to 5 molecules,
         "eps_r in [1,4]; every aggregate is re-parameterised afterwards (set_energy, assignment of the elenergies array, set_dipole, set_resonance_coupling) and rebuilt. distinct = (class, N, mult, unit, coupling sparsity pattern, rounded parameters); "
         "non-trivial iff at least one non-zero coupling and, for mult 2, at least one pair of two-exciton states differing by one move.")
 RULE = RULE + " Round-6 workloads: dipole arrays replaced as a whole; deepcopy/scopy of a built aggregate changed and rebuilt, the original re-read afterwards."
+RULE = RULE + " Round-7 workloads: one third of the matrix-API builds gives the coupling matrix to an empty aggregate first and adds the molecules afterwards."
 ASSUMPTIONS = ["two-level molecules without vibrational modes (vibronic structure is C10's domain)",
                "within a band the order of states is left to the implementation: elements are addressed through Aggregate.elsigs"]
 MIN_NONTRIVIAL = {"quick": 100, "thorough": 900}
